@@ -148,6 +148,7 @@ vnacal_parameter_t *_vnacal_alloc_parameter(const char *function, vnacal_t *vcp)
     vnacal_parameter_collection_t *vprmcp = &vcp->vc_parameter_collection;
     vnacal_parameter_t *vpmrp = NULL;
     int parameter;
+    int new_first_free = -1;
 
     /*
      * Find a free slot in the table, extending the table if necessary.
@@ -158,7 +159,7 @@ vnacal_parameter_t *_vnacal_alloc_parameter(const char *function, vnacal_t *vcp)
 	    ++parameter;
 	    assert(parameter < vprmcp->vprmc_allocation);
 	}
-	vprmcp->vprmc_first_free = parameter + 1;
+	new_first_free = parameter + 1;
 
     } else {
 	vnacal_parameter_t **vpmrpp;
@@ -203,6 +204,9 @@ vnacal_parameter_t *_vnacal_alloc_parameter(const char *function, vnacal_t *vcp)
     vpmrp->vpmr_vcp = vcp;
     vprmcp->vprmc_vector[parameter] = vpmrp;
     ++vprmcp->vprmc_count;
+    if (new_first_free != -1) {
+	vprmcp->vprmc_first_free = new_first_free;
+    }
     return vpmrp;
 }
 
